@@ -176,6 +176,19 @@ CHECKS = {
              '"bail" rule, indeterminate, placeholder-shown, iframe boundary, link=any-link) and the laws; the form-owner reading of :default and '
              'the standard\'s finer reading of :dir() are alternative readings recorded as drift; range law: disjointness only (coverage is C18\'s).',
         technique='TLA+ definitions + partition-law invariants checked by TLC; enumeration replayed into the code; law-level and definition-level TLC trace validation on parser-built documents'),
+    'C06': dict(
+        category='model_checking',
+        text='Custom.tla models the alias resolver (delete-while-compiling) with an explicit stack; TLC checks T-Total (termination under '
+             'weak fairness, bounded stack, no name compiled twice) over every map of 3 names x {plain, refers-to-x, malformed, absent} and '
+             'prints the predicted outcome, replayed into compile(\':--n\', custom=map) (+ malformed / case-colliding names). '
+             'MC_C06_chars enumerates every string of <= 2-3 symbols over a 42-class character alphabet (incl. NUL, C0/C1, surrogates, '
+             'astral, escapes beyond U+10FFFF, comment openers, pseudo-class names) and sampled walks up to length 6-8; each is concretised '
+             'with several representatives per class and compiled bare and inside 15 closed and unterminated contexts; oracle = outcome '
+             'class {compiled, SelectorSyntaxError, NotImplementedError, KeyError only for case-colliding custom names}.',
+        design_ref='§6 C06',
+        note='The tokenizer/parser itself is not yet modelled (no Lexer.tla): accept/reject predictions exist only for the alias resolver; '
+             'Unicode abstracted by classes; nesting depth tiny compared to the recursion budget.',
+        technique='TLA+ resolver state machine with liveness checked by TLC; TLC-enumerated class strings and custom maps replayed into compile(); outcome-class oracle'),
 }
 
 PENDING = {}
